@@ -59,6 +59,11 @@ T = [
  ("a namespace used only inside nested @media rules counts as used", "C03", "@namespace rule deletable although used in nested @media (also C15 V2/V3)"),
  ("a fetched sheet declaring an unknown encoding is reported as unreadable", "C01", "LookupError escaped from parseUrl / from the parse of an importing sheet"),
  ("the default fetcher reports a URL the HTTP client refuses", "C01", "http.client.InvalidURL escaped from parseString for an @import URL with white space"),
+ ("tokenizing a string with many escapes that is never closed", "C01", "unterminated string with many hex escapes: exponential backtracking in the tokenizer (ambiguous unicode macro)"),
+ ("serialising an unknown at-rule with a brace inside a string or URI", "C01", "'@x \"}\" ;' raised IndexError in do_CSSUnknownRule; '@x \"{\" ;' lost the rest of the rule"),
+ ("tokenizing an unterminated comment made of many '*'", "C01", "'/*' + many '*' and 'url(' + many '\\z' without an end: exponential backtracking (ambiguous comment and url macros)"),
+ ("a hex escape followed by a line break could be matched in two ways", "C01", "'url(' + many '\\a<newline>' without an end: exponential backtracking"),
+ ("a comment between the declarations of a margin box was swallowed", "C03", "'@page { @top-left { /*c*/ x: y } }': comment given through the DOM or the source lost on reparse; a comment-only box dropped the box (C09 I5)"),
 ]
 log = subprocess.run(["git", "-C", "/repo", "log", "--format=%h\t%s", "36c1f69..HEAD"], capture_output=True, text=True).stdout.splitlines()
 subj = {l.split("\t")[1][5:]: l.split("\t")[0] for l in log if l.split("\t")[1].startswith("fix: ")}
